@@ -146,6 +146,26 @@ def names(chk):
                 return [it.call_method(p, "_fresh_name", [s]) for s in seq]
             chk.prove_paths(f"TypePrinter._fresh_name[{''.join(seq)}]:all-returned-names-pairwise-distinct", e.explore(t),
                             lambda p: z3.BoolVal(p.kind == "return" and len(set(p.value)) == len(p.value)), func=f"{PR}:TypePrinter._fresh_name")
+    # look-alike display names: whatever a generated name looks like, it must not be a name a user can
+    # choose (identifiers: letters, digits, underscore) — otherwise `T, T, <that name>` prints two
+    # different variables alike
+    POOL = ("T", "U", "T1", "T_1", "T2", "T_2", "T0", "T_0", "T__1", "T_", "T1_")
+    seqs = [q for n in (2, 3) for q in itertools.product(POOL, repeat=n)] + [q for n in (4, 5) for q in itertools.product(("T", "T_1", "T1", "T_2"), repeat=n)]
+    seqs = [q for q in seqs if len(set(q)) > 1 and len(set(q)) < len(q)]
+
+    def t_pool(it):
+        TP = it.lookup_global(e.module(PR), "TypePrinter")
+        bad = []
+        for seq in seqs:
+            p = it.call(TP, [], {})
+            out = [it.call_method(p, "_fresh_name", [s_]) for s_ in seq]
+            if len(set(out)) != len(out):
+                bad.append((seq, out))
+        return bad
+    chk.prove_paths(f"TypePrinter._fresh_name[{len(seqs)} request sequences over identifier look-alikes {POOL}]:all-returned-names-pairwise-distinct", e.explore(t_pool),
+                    lambda p: z3.BoolVal(p.kind == "return" and p.value == []), func=f"{PR}:TypePrinter._fresh_name",
+                    replay=lambda m: {"script": REPLAY_POOL, "input": {"pool": list(POOL)}})
+    fresh_name_induction(chk, e)
     # existential variables with the same display name around / inside a quantified function type
     SHAPES = ["E0,E1", "F(E0),E1", "E0,F(E1)", "F(E0),F(E1)", "F(E0),E1,E0", "F(E0,E1),E2", "E0,F(E1),E2,E1"]
     for sh in SHAPES:
@@ -204,6 +224,24 @@ def _split(s):
     return out + [cur]
 
 
+REPLAY_POOL = r'''
+import itertools
+from guppylang_internals.tys.printing import TypePrinter
+from guppylang_internals.tys.ty import FunctionType, NoneType
+from guppylang_internals.tys.param import TypeParam
+POOL = INPUT["pool"]
+bad = None
+for n in (2, 3):
+    for seq in itertools.product(POOL, repeat=n):
+        ft = FunctionType([], NoneType(), [TypeParam(i, nm, True, True) for i, nm in enumerate(seq)])
+        txt = TypePrinter().visit(ft)
+        names = [x.strip() for x in txt[len("forall "):txt.index(".")].split(",")]
+        if len(set(names)) != len(names):
+            bad = {"params": list(seq), "printed": txt}; break
+    if bad: break
+print(json.dumps({"violates": bad is not None, "witness": bad}))
+'''
+
 REPLAY_NAMES = r'''
 from guppylang_internals.tys.printing import TypePrinter
 from guppylang_internals.tys.ty import ExistentialTypeVar, FunctionType, FuncInput, InputFlags, BoundTypeVar, TupleType
@@ -235,3 +273,109 @@ def bounded(chk, i):
     if res.get("known"):
         k = chk.bounded_result(f"known-deviation[sole-tuple-argument]:{res['known']['printed']}", False, 1, detail=res["known"]["detail"], witness=res["known"], func=f"{PR}:TypePrinter._visit_OpaqueType_StructType")
         k.replay.update({"script": ORACLE + REPLAY_ONE, "input": {"annotation": res["known"]["annotation"]}})
+
+
+def fresh_name_induction(chk, e):
+    """`_fresh_name` never returns the same name twice — for EVERY sequence of requests whose display
+    names contain no prime (every Python identifier), by induction over the sequence.
+
+    Ghost state: `issued`, the set of names returned so far.  Invariant Inv(counter, issued):
+      I1  every counter is >= 1;
+      I3  every key of `counter` is prime-free;
+      I2  every issued name n is accounted for: n is a key of `counter`, or n = e'k for a key e and
+          1 <= k < counter[e].
+    Inv holds after __init__ (counter = {}, issued = {}), obligation `init`.  For an ARBITRARY state
+    satisfying Inv (the counter dict is a pair of uninterpreted z3 arrays) and an arbitrary prime-free
+    display name d, the real `_fresh_name` is executed symbolically; per path:
+      spec       the result and the new counter are the stated function of (counter, d), nothing else
+                 changes (frame);
+      fresh      the result is not in `issued`;
+      keep-I1/I2/I3   Inv holds again for (counter', issued + {result}).
+    The quantified invariants are used the way a deductive verifier uses them: instantiated by hand at
+    the terms the proof needs (stated next to each obligation); existentials in goals get explicit
+    witnesses.  Solvers: z3 then cvc5 --strings-exp."""
+    from pyvc.symcoll import SDict, StrElem, IntElem, elem_codec
+    from pyvc.values import to_z3
+    S, I, B = z3.StringSort(), z3.IntSort(), z3.BoolSort()
+    PRIME = z3.StringVal("'")
+
+    def primed(d, k):
+        return z3.Concat(d, PRIME, z3.If(k >= 0, z3.IntToStr(k), z3.Concat(z3.StringVal("-"), z3.IntToStr(-k))))
+
+    def pf(x):
+        return z3.Not(z3.Contains(x, PRIME))
+
+    # init: TypePrinter() starts with an empty counter
+    def t0(it):
+        TP = it.lookup_global(e.module(PR), "TypePrinter")
+        return it.call(TP, [], {}).fields["counter"]
+    chk.prove_paths("TypePrinter.__init__:counter-starts-empty(Inv-holds-with-issued-empty)", e.explore(t0), lambda p: z3.BoolVal(p.kind == "return" and p.value == {}), func=f"{PR}:TypePrinter.__init__")
+
+    # two string lemmas, proved once and then used by instantiation
+    la, lb, ls, lt = z3.Strings("la lb ls lt")
+    lk1, lk2 = z3.Ints("lk1 lk2")
+
+    def L2(a, b, s_, t_):
+        return z3.Implies(z3.And(pf(a), pf(b), z3.Concat(a, PRIME, s_) == z3.Concat(b, PRIME, t_)), z3.And(a == b, s_ == t_))
+
+    def L3(k1, k2):
+        return z3.Implies(z3.And(k1 >= 0, k2 >= 0, z3.IntToStr(k1) == z3.IntToStr(k2)), k1 == k2)
+    chk.prove("lemma L2: a's = b't with a, b prime-free  =>  a = b and s = t", [], L2(la, lb, ls, lt), func=f"{PR}:TypePrinter._fresh_name")
+    chk.prove("lemma L3: str(k1) = str(k2) for naturals  =>  k1 = k2", [], L3(lk1, lk2), func=f"{PR}:TypePrinter._fresh_name")
+
+    dom, cnt, issued = z3.Const("dom", z3.ArraySort(S, B)), z3.Const("cnt", z3.ArraySort(S, I)), z3.Const("issued", z3.ArraySort(S, B))
+
+    def t(it):
+        TP = it.lookup_global(e.module(PR), "TypePrinter")
+        p = it.call(TP, [], {})
+        sd = SDict(StrElem(), elem_codec(IntElem()), dom, [cnt])
+        p.fields["counter"] = sd
+        d = it.ctx.fresh_str("d")
+        it.ctx.assume(pf(d.t))                                   # precondition: display names are prime-free
+        it.ctx.assume(z3.Implies(z3.Select(dom, d.t), z3.Select(cnt, d.t) >= 1))   # I1 at d
+        r = it.call_method(p, "_fresh_name", [d])
+        post = p.fields["counter"]
+        return d, r, post
+    paths = e.explore(t)
+    chk.record("TypePrinter._fresh_name[arbitrary state]:paths(first use / reuse)", len([p for p in paths if p.kind == "return"]) == 2 and all(p.kind == "return" for p in paths),
+               str([p.kind for p in paths]), kind="reachability", func=f"{PR}:TypePrinter._fresh_name")
+    F = f"{PR}:TypePrinter._fresh_name"
+    for i, p in enumerate(paths):
+        if p.kind != "return":
+            chk.undecided(f"TypePrinter._fresh_name[arbitrary state]/path{i}", f"path ended with {p.kind}: {p.value!r:.200}", func=F)
+            continue
+        d, r, post = p.value
+        d, r = d.t, to_z3(r)
+        if not isinstance(post, SDict):
+            chk.record(f"TypePrinter._fresh_name/path{i}:counter-is-still-the-dict", False, repr(post), func=F)
+            continue
+        dom2, cnt2 = post.dom, post.cols[0]
+        hy = list(p.pc)
+        c = z3.Select(cnt, d)
+        # spec: strongest postcondition
+        spec = z3.If(z3.Select(dom, d),
+                     z3.And(r == primed(d, c), dom2 == dom, cnt2 == z3.Store(cnt, d, c + 1)),
+                     z3.And(r == d, dom2 == z3.Store(dom, d, z3.BoolVal(True)), cnt2 == z3.Store(cnt, d, z3.IntVal(1))))
+        chk.prove(f"_fresh_name/path{i}:spec(result = d on first use, d'counter[d] afterwards; counter[d] := 1 resp. +1; every other key unchanged)", hy, spec, func=F)
+        # fresh: I2 instantiated at n := result with Skolem witnesses (e0, k0); I3 at result and at e0
+        e0, k0 = z3.String("e0"), z3.Int("k0")
+        i2_r = z3.Implies(z3.Select(issued, r), z3.Or(z3.Select(dom, r), z3.And(z3.Select(dom, e0), 1 <= k0, k0 < z3.Select(cnt, e0), r == primed(e0, k0))))
+        i3 = lambda x: z3.Implies(z3.Select(dom, x), pf(x))   # noqa: E731
+        chk.prove(f"_fresh_name/path{i}:fresh(the result was never issued before)  [I2 at result, I3 at result and witness, L2, L3]", hy + [i2_r, i3(r), i3(e0), i3(d), L2(d, e0, z3.IntToStr(c), z3.IntToStr(k0)), L3(c, k0)], z3.Not(z3.Select(issued, r)), func=F,
+                  replay=lambda m: {"script": REPLAY_POOL, "input": {"pool": ["T", "U", "T1", "T_1", "T2", "T_2", "T0", "T_0", "T__1", "T_", "T1_", "T-1", "T.1", "T 1"]}})
+        # keep-I1, keep-I3 for an arbitrary key x
+        x = z3.String("x")
+        chk.prove(f"_fresh_name/path{i}:keep-I1(every counter >= 1)  [I1 at x]", hy + [z3.Implies(z3.Select(dom, x), z3.Select(cnt, x) >= 1)],
+                  z3.Implies(z3.Select(dom2, x), z3.Select(cnt2, x) >= 1), func=F)
+        chk.prove(f"_fresh_name/path{i}:keep-I3(every key prime-free)  [I3 at x]", hy + [i3(x)], z3.Implies(z3.Select(dom2, x), pf(x)), func=F)
+        # keep-I2 for an arbitrary name n: hypothesis I2 at n with Skolem witnesses (e1, k1); goal witnesses (e1, k1) or (d, counter[d])
+        n, e1, k1 = z3.String("n"), z3.String("e1"), z3.Int("k1")
+        i2_n = z3.Implies(z3.Select(issued, n), z3.Or(z3.Select(dom, n), z3.And(z3.Select(dom, e1), 1 <= k1, k1 < z3.Select(cnt, e1), n == primed(e1, k1))))
+        issued2 = z3.Store(issued, r, z3.BoolVal(True))
+
+        def wit(ee, kk):
+            return z3.And(z3.Select(dom2, ee), 1 <= kk, kk < z3.Select(cnt2, ee), n == primed(ee, kk))
+        chk.prove(f"_fresh_name/path{i}:keep-I2(every issued name, the new one included, is accounted for)  [I2 at n; witnesses (old) or (d, counter[d])]",
+                  hy + [i2_n, spec], z3.Implies(z3.Select(issued2, n), z3.Or(z3.Select(dom2, n), wit(e1, k1), wit(d, c))), func=F)
+    # vacuity guards: the hypotheses are satisfiable on each path; a wrong goal fails
+    chk.must_fail("_fresh_name:guard(an issued name CAN be returned if primes are allowed in display names)", [], z3.Implies(z3.And(z3.String("a") != z3.String("b")), primed(z3.String("a"), z3.IntVal(1)) != z3.String("b")), func=F)
